@@ -605,8 +605,8 @@ def evaluate(ctx, cases, with_model=True, stats=None):
             return common.coq_eval(tag, IMPORTS, [f"{fn} {coq_big_bytes(bytes.fromhex(c['data']))}" for c in group],
                                    shard_size=shard, timeout=1500, jobs=6)
         with ThreadPoolExecutor(3) as ex:      # the three groups side by side
-            fs = [ex.submit(ev, "C18", "box_report", shortc, 40), ex.submit(ev, "C18M", "box_digest", medc, 8),
-                  ex.submit(ev, "C18L", "box_digest", bigc, 1)]
+            fs = [ex.submit(ev, f"C18s{os.getpid()}", "box_report", shortc, 40), ex.submit(ev, f"C18m{os.getpid()}", "box_digest", medc, 8),
+                  ex.submit(ev, f"C18l{os.getpid()}", "box_digest", bigc, 1)]
             o_short, o_med, o_big = [f.result() for f in fs]
         for c, o in zip(shortc, o_short):
             model[c["id"]] = report_of_coq(o)
@@ -861,7 +861,7 @@ def run(ctx):
     trees = [gen_tree(rng) for _ in range(80 if q else 800)]
     from concurrent.futures import ThreadPoolExecutor
     bg = ThreadPoolExecutor(1)
-    fut = bg.submit(common.coq_eval, "C18t", IMPORTS, [f"tree_report {coq_tree(t)}" for t in trees], 20, 1500, 4)
+    fut = bg.submit(common.coq_eval, f"C18t{os.getpid()}", IMPORTS, [f"tree_report {coq_tree(t)}" for t in trees], 20, 1500, 4)
     evaluate(ctx, cases, stats=stats)
     lap("evaluated")
     outs = fut.result()
